@@ -1,13 +1,17 @@
 CHECK = {
     "level": "model_checking",
-    "technique": "bounded-exhaustive enumeration of ALL area lists x ALL register lists over small grids (x default/area options) through the real register_init, compared with the statement's rule list; post-conditions checked through the public API",
-    "rule": "a case is (area list, register list): every bad-default mask x area option x type variant x fresh/re-initialised table object is initialised and compared with the reference rule list; after failure 9 operations must answer UNINITIALISED, after success defaults, zeroed memory and area entry ranges are checked; every case is non-trivial",
-    "assumptions": ["grids as stated in the bound (bases/addresses <= 10, sizes 1..4 words, <= 3 areas, <= 5 registers)",
+    "technique": "bounded-exhaustive enumeration of ALL area lists x ALL register lists over small grids (x default/area options) through the real register_init, compared with the statement's rule list; post-conditions checked through the public API. Three structured boundary families carry the same oracle to large scopes (WIDE: area sizes/bases around 2^16, 2^17, 2^31 and the top of the address space; LONG: register counts around 2^8 and 2^16 and area counts around 2^8, one violated rule at an index around the boundary). HISTORY: every ordered pair of descriptions of a family is initialised one after the other in the same descriptor arrays (first descriptions grouped by the residue they leave in the descriptors, full-key comparison); the second initialisation is held against the statement like a fresh one and, as a differential oracle, must iterate like a fresh twin over every address window",
+    "rule": "a small-grid case is (area list, register list): every bad-default mask x area option x type variant x fresh/re-initialised table object is initialised and compared with the reference rule list; after failure 9 operations must answer UNINITIALISED, after success defaults, zeroed memory and area entry ranges are checked (dirty-descriptor runs also iterate like a fresh twin). A WIDE case is (area size, base, neighbour, backing) with every register list of its address menu inside; a LONG case is one table; a HISTORY case is one second description run after every residue. Every case is non-trivial",
+    "assumptions": ["small grids as stated in the bound (bases/addresses <= 10, sizes 1..4 words, <= 3 areas, <= 5 registers); large scopes only through the boundary families of the bound",
                     "where an invalid default at a lower index competes with a hole at a higher index (and likewise order vs overlap) both the rule-major and the index-major answer are accepted (statement leaves it open)",
-                    "zero-size areas and address wrap-around are not generated"],
+                    "zero-size areas are not generated; register or area extents that run past address 2^32-1 (wrapping ranges) are not generated, extents ending exactly at 2^32 are (every word of them has a valid address)",
+                    "area lists of 65535 or more areas are not generated (the library's own size limit, not a rule of the statement)",
+                    "for an area without registers only count == 0 is demanded of its record; what its stale first/last may be is observed through iteration only, and only by comparing two objects with the same description (what iteration has to visit is C03's statement)",
+                    "re-initialisation rewrites the description fields of the descriptors in place and ends the lists with REGISTER_AREA_END / REGISTER_ENTRY_END; the backing blocks are new (filled with 0xa5a5), slots behind the new sentinels keep what the first description left there"],
     "harnesses": [{
         "name": "c04_init", "src": "harness/c04_init.c", "shape": "espace", "opt": "-O2",
-        "lib": ["src/registers/core.c"], "min_outcomes": 3,
-        "require_outcomes": {"any": ["all-refused", "all-accepted", "mixed"]},
+        "lib": ["src/registers/core.c"], "min_outcomes": 8,
+        "require_outcomes": {"any": ["all-refused", "all-accepted", "mixed", "wide-mixed", "long-accepted", "long-refused",
+                                     "reinit-accepted", "reinit-refused"]},
     }],
 }
